@@ -234,7 +234,9 @@ class Session(BusSession):
                 else:
                     # undeliverable: never delivered; the eavesdropper may still see the attempt
                     want.setdefault('E?', []).append(e['tok'])
-                    if e['kind'] == 'call' and not (e['flags'] & 1):
+                    # "a method call that cannot be delivered ... produces exactly one error reply", with and without
+                    # NO_REPLY_EXPECTED (the property's quantifier names the flag): the caller learns that nobody got it
+                    if e['kind'] == 'call':
                         errs[(e['sender'], e['serial'])] += 1
                     else:
                         maybe_err[(e['sender'], e['serial'])] += 1
